@@ -392,6 +392,27 @@ def analyse_launcher(text: str, ttext: str) -> dict:
         tcp_ok = any("_serve_socket_threaded(server, sock, max_connections, idle_timeout" in _u(n) for n in ast.walk(st) if isinstance(n, ast.Expr))
         wshape = bool(order_ok and bound_before_loop and fin_ok and ub_ok and len(guard) == 1 and tcp_ok)
     out["workerExitShape"] = wshape
+
+    # worker start-up order: bind -> listen -> announce (on_bound) -> accept loop.  `_spawn_worker` (hence `launch`) returns on
+    # the announcement, so it must come after listen().
+    def _order(stmts: list[ast.stmt], announce: str) -> bool:
+        idx: dict[str, int] = {}
+        for i, st in enumerate(stmts):
+            u = _u(st)
+            if isinstance(st, ast.Expr) and u.startswith("sock.bind("):
+                idx.setdefault("bind", i)
+            elif isinstance(st, ast.Try) and any(_u(x).startswith("sock.bind(") for x in st.body):
+                idx.setdefault("bind", i)  # serve_unix binds under a umask guard
+            elif isinstance(st, ast.Expr) and u.startswith("sock.listen("):
+                idx.setdefault("listen", i)
+            elif isinstance(st, ast.If) and _u(st.test) == "on_bound is not None" and [_u(x) for x in st.body] == [announce]:
+                idx.setdefault("announce", i)
+            elif "_serve_socket_threaded(" in u or "_serve_socket_sequential(" in u:
+                idx.setdefault("serve", i)
+        return set(idx) == {"bind", "listen", "announce", "serve"} and idx["bind"] < idx["listen"] < idx["announce"] < idx["serve"]
+
+    out["listenBeforeAnnounce"] = bool(len(sut) == 1 and _order(list(sut[0].body), "on_bound(path)"))
+    out["tcpListenBeforeAnnounce"] = _order(_body(_fn(ttree, "serve_tcp")), "on_bound(host, bound_port)")
     out["_nodes"] = [launch, gc, su, _fn(ttree, "_unlink_bound_unix_socket")]
     return out
 
@@ -504,6 +525,13 @@ def gcShape : Bool := {_b(l["gcShape"])}
 and `finally: sock.close(); _unlink_bound_unix_socket(path, identity)` where the latter is `lstat` → identity
 comparison → `unlink` (three separate steps); `serve_tcp` hands `idle_timeout` to the same loop -/
 def workerExitShape : Bool := {_b(l["workerExitShape"])}
+
+/-- `serve_unix`: `sock.bind` < `sock.listen` < `on_bound(path)` < the accept loop, in this order: the socket listens when the
+`UNIX:<path>` announcement (on which `_spawn_worker`, hence `launch`, returns) is written -/
+def listenBeforeAnnounce : Bool := {_b(l["listenBeforeAnnounce"])}
+
+/-- `serve_tcp`: the same order (`sock.bind` < `sock.listen` < `on_bound(host, port)` < the accept loop) -/
+def tcpListenBeforeAnnounce : Bool := {_b(l["tcpListenBeforeAnnounce"])}
 
 /-- installed filelock {f["filelockVersion"]}: after a successful `flock`, a lock whose inode has `st_nlink == 0` is dropped -/
 def filelockChecksNlink : Bool := {_b(f["filelockChecksNlink"])}
